@@ -291,7 +291,9 @@ def containment_paths(maxdepth=8):
 # ------------------------------------------------------------------ representatives
 STR_REPS = ["abc", "two words", "", "ünï", "7", "a#b", "it's", "x.y/z", "1e3x", "odd\x0c\x1c\x85\u2028chars\tin it", "END", "layer", "multi \nline\t\n\nvalue ",
             # not in Unicode normal form C (decomposed accent, ANGSTROM SIGN, OHM SIGN); a continuation line that looks like a comment line
-            "cafe\u0301 \u212b\u2126", "two\n  # hash line\nlines"]
+            "cafe\u0301 \u212b\u2126", "two\n  # hash line\nlines",
+            # bare-able words that the grammar also knows as keyword values (AUTO / NORMAL / HILITE / SELECTED), in lower and mixed case
+            "auto", "Normal"]
 EXPR_REPS = [
     ("([a] = 1)", "( [a] = 1 )"),
     ('("[a]" = "x" AND [b] > 2)', '( ( "[a]" = "x" ) AND ( [b] > 2 ) )'),
